@@ -170,14 +170,37 @@ func ruleBitList(c *Ctx) {
 			if body == nil {
 				c.Undecided(R2, "utils.(*BitList).AddBit/loop", fn.Pos(), "no range loop over the bits")
 			} else {
-				// growth test
-				gh := gr.Block().Preds[0] // header of the capacity loop
-				iff, ok := gh.Instrs[len(gh.Instrs)-1].(*ssa.If)
-				if !ok {
+				// growth test: the capacity loop encloses the growth step - in AddBit itself, or in the
+				// helper that AddBit calls once per bit
+				perBit := body.Preds[0] // header of the per-bit loop
+				site := growSites[0]
+				chain := append(append([]ssa.Instruction{}, func() []ssa.Instruction {
+					var cs []ssa.Instruction
+					for _, p := range site.Path {
+						cs = append(cs, p.(ssa.Instruction))
+					}
+					return cs
+				}()...), site.Ins)
+				var gh *ssa.BasicBlock
+				var grIns ssa.Instruction
+				level := -1
+				for k, ins := range chain {
+					h := enclosingLoopHeader(ins.Block())
+					if h != nil && h != perBit {
+						gh, grIns, level = h, ins, k
+						break
+					}
+				}
+				if gh == nil {
 					c.Undecided(R2, "utils.(*BitList).AddBit/growth-test", gr.Pos(), "grow is not inside a test loop")
 				} else {
-					c.expectCond(R2, "utils.(*BitList).AddBit/growth-test", iff.Cond.Pos(), n.ReachCond(fn, gh, gr.Block()), "bl.count/32 >= len(bl.data)")
-					// the count load feeding the test is inside the per-bit loop
+					F := grIns.Parent()
+					saved := n.Ctx
+					n.Ctx = site.Path[:level]
+					cond := n.ReachCond(F, gh, grIns.Block())
+					n.Ctx = saved
+					c.expectCond(R2, "utils.(*BitList).AddBit/growth-test", grIns.Pos(), cond, "bl.count/32 >= len(bl.data)")
+					// the count that decides is read inside the per-bit loop (not hoisted)
 					inLoop := true
 					var visit func(v ssa.Value, d int)
 					visit = func(v ssa.Value, d int) {
@@ -193,17 +216,32 @@ func ruleBitList(c *Ctx) {
 						case *ssa.UnOp:
 							if fa, ok := x.X.(*ssa.FieldAddr); ok && x.Op == token.MUL {
 								s := fa.X.Type().Underlying().(*types.Pointer).Elem().Underlying().(*types.Struct)
-								if fname(s.Field(fa.Field)) == "count" && !body.Dominates(x.Block()) {
+								if fname(s.Field(fa.Field)) == "count" && x.Parent() == fn && !body.Dominates(x.Block()) {
 									inLoop = false
 								}
 							}
 						}
 					}
-					visit(iff.Cond, 0)
-					c.Check(R2, "utils.(*BitList).AddBit/index-per-bit", iff.Cond.Pos(), inLoop, "count is read inside the per-bit loop (not hoisted)", fmt.Sprint(inLoop))
-					c.Check(R2, "utils.(*BitList).AddBit/grow-loops", gr.Pos(), gh.Dominates(gr.Block()) && len(gr.Block().Succs) == 1 && gr.Block().Succs[0] == gh, "growth repeats until the index fits", "grow block returns to the test")
+					if level == 0 {
+						if iff, ok := gh.Instrs[len(gh.Instrs)-1].(*ssa.If); ok {
+							visit(iff.Cond, 0)
+						}
+					} else {
+						for _, a := range site.Path[0].Common().Args {
+							visit(a, 0)
+						}
+						if !body.Dominates(site.Path[0].Block()) {
+							inLoop = false
+						}
+					}
+					c.Check(R2, "utils.(*BitList).AddBit/index-per-bit", grIns.Pos(), inLoop, "count is read inside the per-bit loop (not hoisted)", fmt.Sprint(inLoop))
+					c.Check(R2, "utils.(*BitList).AddBit/grow-loops", grIns.Pos(), gh.Dominates(grIns.Block()) && len(grIns.Block().Succs) == 1 && grIns.Block().Succs[0] == gh, "growth repeats until the index fits", "grow block returns to the test")
 				}
-				c.Check(R2, "utils.(*BitList).AddBit/write-after-growth", set.Pos(), gh != nil && gh.Dominates(set.Block()) && set.Block() != gr.Block() && !gr.Block().Dominates(set.Block()), "SetBit after the capacity loop", "ok")
+				if level <= 0 {
+					c.Check(R2, "utils.(*BitList).AddBit/write-after-growth", set.Pos(), gh != nil && gh.Dominates(set.Block()) && set.Block() != gr.Block() && !gr.Block().Dominates(set.Block()), "SetBit after the capacity loop", "ok")
+				} else {
+					c.Check(R2, "utils.(*BitList).AddBit/write-after-growth", set.Pos(), dominatesInstr(gr, set), "SetBit after the capacity loop", "ok")
+				}
 				c.expectPoly(R2, "utils.(*BitList).AddBit/write-index", set.Pos(), n, set.Common().Args[1], "bl.count")
 				if bitIdx != nil {
 					n.Bind[bitIdx] = "j"
